@@ -97,6 +97,9 @@ def run_c11(tier, seed, replay):
                 k = max(gen.depth(law["lhs"]), gen.depth(law["rhs"]))
                 calls.append(semprops.call("ext_dirty", [law["lhs"]], k, ids=[i + 1], ctx=ctx))
                 calls.append(semprops.call("ext_dirty", [law["rhs"]], k, ids=[i + 1], ctx=ctx))
+                # both sides once more in ONE batch (they share sub-formulae, for the binder laws up to renaming):
+                # the cache must not make the two sides differ from each other or from the single evaluations
+                calls.append(semprops.call("multi_ext_dirty", [law["lhs"], law["rhs"]], k, ids=[i + 1, i + 1], ctx=ctx))
             cases.append({"id": "%s-l%d" % (m["id"], j), "net": m["id"], "kinds": ["denote", "equal"], "calls": calls})
     jobs = os.path.join(wd, "jobs.json")
     json.dump({"nets": nets, "cases": cases}, open(jobs, "w"))
